@@ -128,6 +128,7 @@ func init() {
 			}
 			out = append(out, Instance{Scenario: "c02_readonly_dcp", Params: mustJSON(struct{}{}), Bound: 0, Note: "read-only mode through the real Dcp.Start(), also for a backend handed in with SetMetadata"})
 			out = append(out, Instance{Scenario: "c05_windowcommit", Params: mustJSON(struct{}{}), Bound: 0, Note: "acknowledgements and commits inside a rebalance window: the re-opened session requests each vBucket from exactly what the store holds then"})
+			out = append(out, Instance{Scenario: "c02_manyvb", Params: mustJSON(struct{}{}), Bound: 0, Shards: 3, Note: "assignments of 129 / 300 / 173..174 / 130 vBuckets: every assigned vBucket is requested exactly once"})
 			out = append(out, Instance{Scenario: "c02_finitecoll", Params: mustJSON(struct{}{}), Bound: 0, Note: "finite mode with a collection filter: end (and the 'latest' start) are the VBUCKET's high seqno, not the streamed collection's"})
 			out = append(out, Instance{Scenario: "c02_twogroups", Params: mustJSON(struct{}{}), Bound: 0, Note: "two consumer groups in one process on one bucket: each resumes from what is persisted for IT"})
 			out = append(out, Instance{Scenario: "c15_start", Params: mustJSON(StartParams{Reset: "latest", Mode: "infinite"}), Bound: 1, Shards: 4, Note: "autoReset=latest under single start-up faults: a session that starts has requested every vBucket without a checkpoint at its current high seqno (or the start-up terminated)"})
@@ -1005,6 +1006,57 @@ func init() {
 				vrt.Failf("%s: vb0 requested from %d, want %d", desc, req.Args[2], wantStart)
 			}
 			vrt.SetOutcome(fmt.Sprintf("%s|%v", desc, req.Args))
+		}}
+	}
+}
+
+// c02_manyvb: "each assigned vBucket is requested": assignments with many vBuckets whose size is not a multiple
+// of any convenient batch size (129, 300 of 300 as a single member; members 1..3 of 3 over 520): every assigned
+// vBucket is requested exactly once, from all-zero values (no checkpoint, earliest), nothing outside the chunk.
+func init() {
+	scenarios["c02_manyvb"] = func(raw json.RawMessage) *vrt.Scenario {
+		return &vrt.Scenario{Name: "c02_manyvb", FreeChoices: true, NoTimerAlt: true, MaxSteps: 5_000_000, Main: func() {
+			resetGlobals()
+			shape := [][3]int{{129, 1, 1}, {300, 1, 1}, {520, 1, 3}, {520, 2, 3}, {520, 3, 3}, {260, 2, 2}}[vrt.Choose(6, true, "vbuckets/member/total")]
+			o := EnvOpts{Vbs: shape[0], CheckpointType: "manual", WrapMeta: true, MemberNumber: shape[1], Total: shape[2]}
+			c := NewCluster(&o)
+			e := NewEnv(c, o)
+			e.Stream.Open()
+			c.WaitIdle()
+			per, rem := shape[0]/shape[2], shape[0]%shape[2]
+			first := 0
+			for m := 1; m < shape[1]; m++ {
+				first += per
+				if m <= rem {
+					first++
+				}
+			}
+			n := per
+			if shape[1] <= rem {
+				n++
+			}
+			count := map[uint16]int{}
+			for _, r := range c.RequestsOf("openstream") {
+				count[r.Vb]++
+				if r.Args[2] != 0 || r.Args[1] != 0 {
+					vrt.Failf("%d vBuckets, member %d/%d: vb%d requested from (vbuuid %d, seq %d), no checkpoint is stored", shape[0], shape[1], shape[2], r.Vb, r.Args[1], r.Args[2])
+				}
+			}
+			missing, extra := 0, 0
+			for vb := 0; vb < shape[0]; vb++ {
+				in := vb >= first && vb < first+n
+				switch {
+				case in && count[uint16(vb)] != 1:
+					missing++
+				case !in && count[uint16(vb)] != 0:
+					extra++
+				}
+			}
+			if missing+extra > 0 {
+				vrt.Failf("%d vBuckets, member %d/%d (assigned %d..%d): %d assigned vBuckets were not requested exactly once, %d foreign ones were requested", shape[0], shape[1], shape[2], first, first+n-1, missing, extra)
+			}
+			vrt.SetOutcome(fmt.Sprintf("%v", shape))
+			e.Stream.Close(false)
 		}}
 	}
 }
